@@ -233,7 +233,9 @@ EXTRA = [
 # canaries every helper returns at the FIRST field it reads (their comparisons / __contains__ answer truthy), so the walk is
 # the first name; later positions are probed on a real record (REAL_HELPER_DUNDER) whose earlier fields do not match.
 HELPER_FIELD_LISTS = [["__class__"], ["a", "__doc__"], ["__dict__", "a"], ["a", "b", "__x", "c"], ["_a", "__"], ["a", "b"], ["___"],
-                      ["__init__", "a_", "__class__"]]
+                      ["__init__", "a_", "__class__"],
+                      # names that only BECOME double-underscore names if the helper normalises them after its check
+                      [" __secret__"], ["__secret__ "], ["\t__x__"], [" __x__\n"], ["a.__y__"], ["A__z__"]]
 HELPER_DUNDER = []
 for _fl in HELPER_FIELD_LISTS:
     HELPER_DUNDER.append(("field_equals(r, %r, ['x'])" % _fl, _fl[:1]))
